@@ -17,6 +17,24 @@ pub(crate) struct SyscommandCounter(usize);
 
 //-------------------------------------------------------------------------------------------------------------------
 
+/// Hands out unique tickets that pair a cobweb command with the event metadata prepared for it.
+///
+/// A command may be postponed (recursive system commands) and replayed in a different order than it was prepared, so
+/// metadata must be claimed by ticket, not by 'first entry for this system'.
+#[derive(Resource, Default, Debug)]
+pub(crate) struct ReactionTicketCounter(u64);
+
+impl ReactionTicketCounter
+{
+    pub(crate) fn next(&mut self) -> u64
+    {
+        self.0 = self.0.wrapping_add(1);
+        self.0
+    }
+}
+
+//-------------------------------------------------------------------------------------------------------------------
+
 /// Prepares the react framework so that reactors may be registered with [`ReactCommands`].
 /// - Un-handled removals and despawns will be automatically processed in `Last`.
 pub struct ReactPlugin;
@@ -31,6 +49,7 @@ impl Plugin for ReactPlugin
         }
         app.init_resource::<CobwebCommandQueue<BufferedSyscommand>>()
             .init_resource::<SyscommandCounter>()
+            .init_resource::<ReactionTicketCounter>()
             .init_resource::<SystemEventAccessTracker>()
             .init_resource::<EntityReactionAccessTracker>()
             .init_resource::<EventAccessTracker>()
